@@ -118,7 +118,7 @@ fn i(op: u32, rt: Option<u32>, rid: Option<u32>, ops: Vec<SOp>) -> SInst { SInst
 fn idr(n: u32) -> SOp { SOp::one("IdRef", n) }
 fn lit(n: u32) -> SOp { SOp::one("LiteralBit32", n) }
 
-pub struct Sub { pub insts: Vec<SInst>, pub next: u32, pub t_void: u32, pub t_bool: u32, pub t_u32: u32, pub t_i32: u32, pub t_f32: u32, pub t_v4: u32, pub t_fn: u32, pub t_ptr: u32, pub t_st: u32, pub t_arr2: u32, pub c_i: u32, pub c_v: u32,
+pub struct Sub { pub insts: Vec<SInst>, pub next: u32, pub t_void: u32, pub t_bool: u32, pub t_u32: u32, pub t_i32: u32, pub t_f32: u32, pub t_v4: u32, pub t_fn: u32, pub t_void2: u32, pub t_fn_u: u32, pub t_ptr: u32, pub t_st: u32, pub t_arr2: u32, pub c_i: u32, pub c_v: u32,
                  pub c_u: u32, pub c_f: u32, pub consts: Vec<u32>, pub types: Vec<u32> }
 
 /// declarations of the supported subset: scalar, vector, matrix, pointer, array, struct, function types; 32-bit constants and composites
@@ -160,10 +160,13 @@ pub fn subset_prelude(rng: &mut Rng) -> Sub {
     let t_arr2 = f(); v.push(i(28, None, Some(t_arr2), vec![idr(t_f32), idr(c_2b)]));
     let c_v2 = f(); v.push(i(44, Some(t_v4), Some(c_v2), vec![idr(c_fb), idr(c_f), idr(c_n2), idr(c_fb)]));
     let c_a = f(); v.push(i(44, Some(t_arr2), Some(c_a), vec![idr(c_fb), idr(c_n2)]));
+    // a second OpTypeVoid and a function type returning u32: an OpFunction's own result type is what the function keeps
+    let t_void2 = f(); v.push(i(19, None, Some(t_void2), vec![]));
+    let t_fn_u = f(); v.push(i(33, None, Some(t_fn_u), vec![idr(t_u32)]));
     let next = n;
-    Sub { insts: v, next, t_void, t_bool, t_u32, t_i32, t_f32, t_v4, t_fn, t_ptr, t_st, t_arr2, c_i, c_v, c_u, c_f,
+    Sub { insts: v, next, t_void, t_bool, t_u32, t_i32, t_f32, t_v4, t_fn, t_void2, t_fn_u, t_ptr, t_st, t_arr2, c_i, c_v, c_u, c_f,
           consts: vec![c_u, c_i, c_f, c_t, c_fl, c_v, c_n, c_2, c_2b, c_fb, c_n2, c_n3, c_tb, c_v2, c_a],
-          types: vec![t_void, t_bool, t_u32, t_i32, t_f32, t_v4, t_m4, t_arr, t_st, t_ptr, t_fn, t_fn2, t_arr2] }
+          types: vec![t_void, t_bool, t_u32, t_i32, t_f32, t_v4, t_m4, t_arr, t_st, t_ptr, t_fn, t_fn2, t_arr2, t_void2, t_fn_u] }
 }
 
 pub fn subset_module(rng: &mut Rng, body_ops: &[SInst]) -> Vec<SInst> {
@@ -173,7 +176,9 @@ pub fn subset_module(rng: &mut Rng, body_ops: &[SInst]) -> Vec<SInst> {
     let nf = 1 + rng.below(2);
     for fi in 0..nf {
         let fid = n; n += 1;
-        v.push(i(54, Some(s.t_void), Some(fid), vec![SOp::one("FunctionControl", *rng.pick(&[0u32, 1, 2, 4, 8, 5])), idr(s.t_fn)]));
+        // the OpFunction's result type and the return type of its function type are sometimes different ids
+        let (rt_f, ty_f) = match rng.below(4) { 0 => (s.t_void2, s.t_fn), 1 => (s.t_i32, s.t_fn_u), _ => (s.t_void, s.t_fn) };
+        v.push(i(54, Some(rt_f), Some(fid), vec![SOp::one("FunctionControl", *rng.pick(&[0u32, 1, 2, 4, 8, 5])), idr(ty_f)]));
         let nb = 1 + rng.below(3);
         let mut labels: Vec<u32> = vec![];
         let mut values_f: Vec<u32> = vec![];
@@ -198,6 +203,9 @@ pub fn subset_module(rng: &mut Rng, body_ops: &[SInst]) -> Vec<SInst> {
                     }
                 }
             }
+            // OpLine (skipped by the lifter) in front of the phis / between instructions
+            let line_first = b > 0 && rng.chance(1, 3);
+            if line_first { let at = v.iter().rposition(|x| x.op == 248).unwrap() + 1; v.insert(at, i(8, None, None, vec![idr(900), lit(1), lit(2)])); }
             for _ in 0..rng.below(4) {
                 let r = n; n += 1;
                 let a = if values_f.is_empty() || rng.chance(1, 2) { s.c_f } else { *rng.pick(&values_f) };
@@ -213,6 +221,11 @@ pub fn subset_module(rng: &mut Rng, body_ops: &[SInst]) -> Vec<SInst> {
                     2 => { v.push(i(80, Some(s.t_v4), Some(r), vec![idr(s.c_f), idr(s.c_f), idr(s.c_f), idr(s.c_f)])); pools[2].1.push(r); }
                     _ => { v.push(i(80, Some(s.t_arr2), Some(r), vec![idr(s.c_f), idr(s.c_f)])); pools[3].1.push(r); }
                 }
+            }
+            // a phi that is NOT in the leading run of phis (after ordinary instructions)
+            if b > 0 && values_f.len() >= 2 && rng.chance(1, 3) {
+                let p = n; n += 1;
+                v.push(i(245, Some(s.t_f32), Some(p), vec![idr(values_f[0]), idr(labels[0]), idr(values_f[1]), idr(labels[0])]));
             }
             if fi == 0 && b == 0 {
                 for o in body_ops { let mut o = o.clone(); if o.rid.is_some() { o.rid = Some(n); n += 1; } v.push(o); }
@@ -252,7 +265,7 @@ pub fn drive(args: &[String]) {
     let n = arg_num(args, "--n", 200) as usize;
     for _ in 0..n {
         let insts = subset_module(&mut rng, &[]);
-        if let Some(m) = load(&insts, *rng.pick(&[0x0001_0000u32, 0x0001_0300, 0x0001_0600])) { out.ev(lift_event(&m, "subset", None)); }
+        if let Some(m) = load(&insts, *rng.pick(&[0x0001_0000u32, 0x0001_0300, 0x0001_0600, 0x0001_0301, 0x0101_0300, 0xffff_ffff, 0])) { out.ev(lift_event(&m, "subset", None)); }
     }
     // per-opcode positional mapping: every result-producing opcode whose operands are ids / integer literals only.
     // For each id operand the probe tries a plain id, then a type id, then a constant id and keeps the first that lifts.
